@@ -16,7 +16,9 @@ CONSTANT Families        \* set of family names to enumerate
 AllCases(u) ==
   (IF "alu" \in Families THEN AluCases(u) ELSE {}) \cup
   (IF "jmp" \in Families THEN JmpCases(u) ELSE {}) \cup
-  (IF "far" \in Families THEN FarCases(u) ELSE {})
+  (IF "far" \in Families THEN FarCases(u) ELSE {}) \cup
+  (IF "mem" \in Families THEN MemCases(u) ELSE {}) \cup
+  (IF "bounds" \in Families THEN BoundsCases(u) ELSE {})
 
 Init == \E c \in AllCases(0) : InitFor(c)
 Next == ExecNext
@@ -26,7 +28,7 @@ Spec == Init /\ [][Next]_mvars
 ProgOut(p) == [k \in 1..Len(p) |-> <<p[k].n, <<p[k].i.opc, p[k].i.dst, p[k].i.src, p[k].i.off, p[k].i.imm>>>>]
 CaseOut(c) == [id |-> c.id, fam |-> c.fam, vm |-> c.vm, prog |-> ProgOut(c.prog),
                pkt |-> c.pkt, mbuf |-> c.mbuf, fixed |-> c.fixed, allow |-> c.allow,
-               helpers |-> c.helpers, calc |-> c.calc, fsz |-> c.fsz, budget |-> c.budget,
+               helpers |-> c.helpers, calc |-> c.calc, fsz |-> c.fsz, budget |-> c.budget, dev |-> c.dev,
                wf |-> WellFormed(c.prog)]
 
 Emit == Done => PrintT("REPLAY " \o ToJson([case |-> CaseOut(env.c), exp |-> Outcome]))
